@@ -7,10 +7,10 @@ def run(tier, seed):
     cases = []
     for proto in (0, 1, 2):
         for role in (0, 1):
-            for state in range(7):
+            for state in range(10):
                 if state in (5, 6) and (role == 1 or proto == 0):
                     continue
-                for op in range(7):
+                for op in (range(7) if state < 7 else (1, 2, 5)):      # (after a forced disqualification: timeouts, End, another one)
                     lens = [0]
                     if op in (3, 4):
                         lens = [0, 1, 2, 34, 193] if thorough else [0, 2, 34]
@@ -23,7 +23,7 @@ def run(tier, seed):
     return run_check('C10', cases, tier, seed, setup=dkgcommon.SETUP,
         functions=['Start/NextTimeout/End/HandleBroadcastMsg/HandlePrivateMsg/ForceDisqualify/Running of feldmanVSSstate, feldmanVSSQualState, JointFeldmanState', 'newDKGCommon', 'NewFeldmanVSS', 'NewFeldmanVSSQual', 'NewJointFeldman'],
         bounds={'configuration': 'n = 3, t = 1, dealer and non-dealer roles, three protocols',
-                'automaton states': 'new, started, one timeout, two timeouts, ended, started with a disqualified dealer, one timeout with a pending complaint against the dealer (reached through real calls)',
+                'automaton states': 'new, started, one timeout, two timeouts, ended, started with a disqualified dealer, one timeout with a pending complaint against the dealer; started / one timeout / two timeouts after a ForceDisqualify of an arbitrary participant incl. this one (reached through real calls)',
                 'Start seeds': 'lengths 0, 31, 32 (thorough: also 1, 33, 64), contents symbolic, dealer and non-dealer', 'call under test': 'origin / participant index symbolic 64-bit; message bytes symbolic with lengths %s; constructor arguments symbolic 64-bit (Joint-Feldman size <= 6)' % ('0,1,2,34,193' if thorough else '0,2,34'),
                 'outside': 'restart after End (left unspecified by the documentation); histories are covered through the automaton state: accept/reject decisions read only running/jointRunning and the two timeout flags, which the enumerated states cover'},
         assumptions=dkgcommon.ASSUME, trusted=dkgcommon.TRUSTED,
